@@ -1,8 +1,9 @@
 """C17 — Disc-overlap area is total, symmetric, bounded and accurate.
 
 Correspondence: `circle_circle_intersection_area` of the repository vs the Lean model `FV/Model/Disc.lean`
-run at `Float` with the C library's pow / acos / sin (driver `drv_legal`, op `disc`): same error class, same
-value (bit-equal is the rule; a difference below the conditioning of the formula is counted as drift).
+run at `Float` with the C library's pow / acos / sin and a transcription of CPython 3.12's math.hypot (driver
+`drv_legal`, op `disc`): same error class, same value (bit-equal is the rule; a difference below the conditioning
+of the formula is counted as drift).
 Spec on implementation (what cannot be a theorem: the floating-point facts): on every generated pair the call
 does not raise, is symmetric, lies in [0, pi*min(r)^2] and is within 1e-5*max(r)^2 of the exact lens area
 computed with 60-digit mpmath from the exact distance of the (binary) centres.
@@ -26,14 +27,19 @@ TRUSTED = [
     "hand-written model FV/Model/Disc.lean — fidelity to tools/force/fruchterman_reingold.py checked by this correspondence run, not proved",
     "theorems are over ℝ (and, for the clamp, over any linear order with arbitrary rounding); IEEE rounding and the C library's "
     "pow/acos/sin are executed (same libm as CPython), never proved",
+    "CPython 3.12's math.hypot (Modules/mathmodule.c: math_hypot + vector_norm) is transcribed by hand into the model "
+    "(Disc.pyHypot); bit-equality with math.hypot is what this correspondence run observes (every `disc` case), not proved",
+    "'never fails' is claimed for finite centres and finite positive radii whose smaller one is <= 1e150 (generated range; "
+    "min(r1, r2)**2 raises OverflowError above 1.34e154, where the disc area is not a double); centre coordinates up to 1e308",
     "mpmath (60 digits) as the oracle for the exact lens area",
     "harness (Python) and compiled Lean driver: parsing, comparison",
 ]
 
 FLOOR = 4 * 5e-324          # a few subnormal steps: no double can do better below
-ACCURACY_FROM = 1e-150      # below, Point.norm's own squares are subnormal and 1e-5*r^2 nears the subnormal spacing
+ACCURACY_FROM = 1e-150      # below, the disc areas themselves (~r^2) approach the subnormal range, where 1e-5*r^2 nears the spacing
 
-FAMILIES = ["ext_tangent", "int_tangent", "equal", "concentric", "nested", "far", "generic"]
+FAMILIES = ["ext_tangent", "int_tangent", "equal", "concentric", "nested", "far", "generic", "near_equal", "near_equal",
+            "very_far"]
 
 
 def exact_area(x1, y1, r1, x2, y2, r2):
@@ -56,6 +62,37 @@ def call(x1, y1, r1, x2, y2, r2):
     except Exception as e:  # noqa: BLE001  (error *class* is the observation)
         return "err:" + type(e).__name__
     return float(v)
+
+
+def near_equal_case(rng, scale):
+    """nearly equal radii (relative gap 1e-12 ... 1e-3) with the centre distance next to one of the two tangencies:
+    the difference of the squared radii cancels (findings/C17_near_equal_radii.py)."""
+    style = rng.random()
+    if style < 0.25:
+        r1 = round(rng.uniform(0.1, 9.9), 1) * scale
+    elif style < 0.4:
+        r1 = rng.randint(1, 64) / 8 * scale
+    else:
+        r1 = rng.uniform(0.05, 1.0) * scale
+    r2 = r1 * (1 - 10.0 ** rng.uniform(-12, -3))
+    if r2 == r1:
+        r2 = ulp_nudge(r1, -rng.randint(1, 1000))
+    gap = abs(r1 - r2)
+    kind = rng.choice(["in+rel", "in+rel", "in+ulp", "in+ulp", "ex+ulp", "in+wide", "ex-rel"])
+    k = rng.randint(-8, 64)
+    if kind == "in+rel":        # just above internal tangency: d = |r1 - r2| (1 + t), t = 1e-10 ... 1e-5
+        d = gap * (1 + 10.0 ** rng.uniform(-10, -5))
+    elif kind == "in+ulp":      # a few units in the last place of |r1 - r2| (mostly above: the lens branch)
+        d = ulp_nudge(gap, k)
+    elif kind == "ex+ulp":      # next to external tangency
+        d = ulp_nudge(r1 + r2, rng.randint(-64, 8))
+    elif kind == "ex-rel":      # just below external tangency
+        d = (r1 + r2) * (1 - 10.0 ** rng.uniform(-14, -5))
+    else:                       # from the internal tangency up to a proper lens
+        d = gap * (1 + 10.0 ** rng.uniform(-5, 4))
+    if rng.random() < 0.5:
+        r1, r2 = r2, r1
+    return r1, r2, abs(d), k, kind
 
 
 def gen_case(rng):
@@ -86,7 +123,14 @@ def gen_case(rng):
         if rng.random() < 0.5:
             r1, r2 = r2, r1
     k = rng.randint(-8, 8)
-    if fam == "ext_tangent":
+    sub = None
+    if fam == "near_equal":
+        r1, r2, d, k, sub = near_equal_case(rng, scale)
+    elif fam == "very_far":     # centres further apart than the square root of the largest double (Point.norm overflowed)
+        d = 10.0 ** rng.uniform(153.5, 307.9)
+        if rng.random() < 0.3:
+            d = max(d, (r1 + r2) * 10.0 ** rng.uniform(0.5, 100))
+    elif fam == "ext_tangent":
         d = ulp_nudge(r1 + r2, k)
     elif fam == "int_tangent":
         d = ulp_nudge(abs(r1 - r2), k) if r1 != r2 else ulp_nudge(0.0, abs(k)) * rng.choice([1.0, 2.0 ** 500, 2.0 ** 1000])
@@ -103,6 +147,10 @@ def gen_case(rng):
     d = abs(d)
     # place the centres: axis-aligned (the distance is then d up to the rounding of pow) or rotated
     off = rng.choice([0.0, 0.0, scale * rng.uniform(-1000, 1000)])
+    if fam == "near_equal" and rng.random() < 0.7:
+        off = 0.0               # keep the prescribed distance: it is ~1e-8 of the radii, an offset would round it away
+    if fam == "very_far":
+        off = rng.choice([0.0, -d / 2, d * rng.uniform(-1, 0)])   # |off| + d stays below the largest double
     x1, y1 = off, rng.choice([0.0, off, scale * rng.uniform(-10, 10)])
     p = rng.random()
     if p < 0.4:
@@ -112,8 +160,8 @@ def gen_case(rng):
     else:
         th = rng.uniform(0, 2 * math.pi)
         x2, y2 = x1 + d * math.cos(th), y1 + d * math.sin(th)
-    if fam in ("ext_tangent", "int_tangent") and off == 0.0 and p < 0.6:
-        pass  # exact placement
+    if sub is not None:
+        fam = fam + ":" + sub
     return {"family": fam, "k": k, "x1": f2hex(x1), "y1": f2hex(y1), "r1": f2hex(r1),
             "x2": f2hex(x2), "y2": f2hex(y2), "r2": f2hex(r2)}
 
@@ -190,10 +238,12 @@ def process(ctx: Ctx, cases) -> None:
         x1, y1, r1, x2, y2, r2 = args_of(inp)
         a = call(x1, y1, r1, x2, y2, r2)
         b = call(x2, y2, r2, x1, y1, r1)
-        nontrivial = inp["family"] not in ("far",)
+        nontrivial = inp["family"] not in ("far", "very_far")
         ctx.case("disc", tuple(inp[k] for k in ("x1", "y1", "r1", "x2", "y2", "r2")), nontrivial,
                  {"family": inp["family"], "r1": r1, "r2": r2, "d": math.hypot(x1 - x2, y1 - y2), "area": a})
-        ctx.count(inp["family"])
+        ctx.count(inp["family"].split(":")[0])
+        if ":" in inp["family"]:
+            ctx.count(inp["family"])
         if isinstance(a, float) and not isinstance(b, str):
             if a == 0.0:
                 ctx.count("result:zero")
@@ -208,11 +258,11 @@ def process(ctx: Ctx, cases) -> None:
 
 
 class _Rel:
-    """stand-in for `c1 - c2` with a prescribed norm: drives the body of the function with an exact distance
-    (Point.norm cannot produce distances below ~1.5e-162, so the zero-divisor guard is unreachable through it)."""
+    """stand-in for a centre: drives the body of the function with an exact distance `d` whichever way the code takes it —
+    `math.hypot(c1.x - c2.x, c1.y - c2.y)` (hypot(d, 0.0) is d, exactly, for every double) or `(c1 - c2).norm()`."""
 
-    def __init__(self, d):
-        self.d = d
+    def __init__(self, d, x):
+        self.d, self.x, self.y = d, x, 0.0
 
     def __sub__(self, other):
         return self
@@ -223,7 +273,7 @@ class _Rel:
 
 def call_body(r1, r2, d):
     try:
-        v = circle_circle_intersection_area(_Rel(d), r1, _Rel(d), r2)
+        v = circle_circle_intersection_area(_Rel(d, d), r1, _Rel(d, 0.0), r2)
     except Exception as e:  # noqa: BLE001
         return "err:" + type(e).__name__
     return float(v)
@@ -240,8 +290,10 @@ def body_stream(ctx: Ctx, n: int) -> None:
     for _ in range(n):
         scale = 10.0 ** rng.choice([rng.uniform(-6, 6), rng.uniform(-160, 150), rng.uniform(100, 150), rng.uniform(-160, -120)])
         r1 = scale * rng.uniform(0.1, 1.0)
-        kind = rng.choice(["tiny-d", "tiny-d", "ratio", "tangent", "lens"])
-        if kind == "tiny-d":
+        kind = rng.choice(["tiny-d", "tiny-d", "ratio", "tangent", "lens", "near-equal", "near-equal"])
+        if kind == "near-equal":
+            r1, r2, d, _, _ = near_equal_case(rng, scale)
+        elif kind == "tiny-d":
             r2 = r1
             d = max(5e-324, r1 * 10.0 ** rng.uniform(-330, -280))
         elif kind == "ratio":
@@ -295,29 +347,38 @@ CORPUS = [  # the witnesses of findings/C17_acos_domain.py and exact tangencies
     # findings/C17_underflow.py
     (9.01165710384412e-171, 1.3105308960428737e-155, 1.3105308960428743e-155), (3e-160, 2e-160, 4e-160),
     (1.5e-170, 1.5e-170, 2e-170), (3e150, 2e150, 4e150), (1e-300, 1e-300, 1e-300),
+    # findings/C17_near_equal_radii.py
+    (4.476107856162686, 4.476107808596214, 4.756647260599044e-08), (1.0, 0.9999999892856017, 1.0714398308125872e-08),
+    (2.999999968365859e-07, 3e-07, 3.1634141139969578e-15), (2.7399764922771456e+26, 2.7399764630784478e+26, 2.9198697788709453e+18),
+    # findings/C17_far_overflow.py
+    (1.0, 1.0, 2e154), (2.5, 0.5, 2e200), (2e153, 1e153, 1.5e154), (1e150, 1e150, 1.7e308),
 ]
 
 
 def run(ctx: Ctx) -> None:
-    ctx.rule = ("pairs of discs from 7 families: centre distance within ±8 ulp of r1+r2 (externally tangent) and of |r1-r2| "
+    ctx.rule = ("pairs of discs from 9 families: centre distance within ±8 ulp of r1+r2 (externally tangent) and of |r1-r2| "
                 "(internally tangent), equal discs (incl. distance 0 and 2r±ulp), concentric, nested, far apart, generic "
-                "lenses; radii short decimals / dyadic / uniform at scales 1e-6…1e6 (half of the cases), 1e-160…1e150, "
+                "lenses; nearly equal radii (r2 = r1(1 - 10^U(-12,-3)), either order) with d = |r1-r2|(1 + 10^U(-10,-5)), "
+                "d within -8…+64 ulp of |r1-r2|, within -64…+8 ulp of r1+r2, (r1+r2)(1 - 10^U(-14,-5)) or |r1-r2|(1 + 10^U(-5,4)) "
+                "(2 of 13 draws; mostly at the origin so that the prescribed distance survives); very far apart centres "
+                "(distance 10^U(153.5, 307.9), where the squared distance is not a double); radii short decimals / dyadic / uniform at scales 1e-6…1e6 (half of the cases), 1e-160…1e150, "
                 "1e-160…1e-140 and 1e140…1e150, one disc possibly 1e-17…1e-1 of the other; centres axis-aligned or rotated, at the "
-                "origin or offset by up to 1000 radii; every pair is evaluated in both argument orders. A second stream drives the body with exact (r1, r2, d) triples through a stand-in for c1 - c2 (distances down to 5e-324 against radii up to 1e150, radius ratios 1e-17…1e-14, exact tangencies), which reaches the zero-divisor guard. Far-apart pairs are "
+                "origin or offset by up to 1000 radii; every pair is evaluated in both argument orders. A second stream drives the body with exact (r1, r2, d) triples through a stand-in for c1 - c2 (distances down to 5e-324 against radii up to 1e150, radius ratios 1e-17…1e-14, exact tangencies, the nearly-equal-radii family), which reaches the zero-divisor guard. Far-apart pairs are "
                 "trivial; distinct = distinct (centres, radii)")
     cases = []
-    if not getattr(ctx, "seed_inputs", None) and ctx.budget <= 1.0:
+    for _ in range(ctx.n(40000, 800000)):
+        cases.append(gen_case(ctx.rng))
+    if not getattr(ctx, "seed_inputs", None) and ctx.budget <= 1.0:   # after the generated cases: replays show what the search found
         for r1, r2, d in CORPUS:
             cases.append({"family": "corpus", "k": 0, "x1": f2hex(0.0), "y1": f2hex(0.0), "r1": f2hex(r1),
                           "x2": f2hex(d), "y2": f2hex(0.0), "r2": f2hex(r2)})
-    for _ in range(ctx.n(40000, 800000)):
-        cases.append(gen_case(ctx.rng))
     process(ctx, cases)
     body_stream(ctx, ctx.n(6000, 100000))
-    ctx.assumptions.append("radii positive and finite, lengths <= 1e150 (the disc area must be a double; Python's ** raises "
-                           "OverflowError beyond ~1.3e154); NaN/inf inputs are outside the property")
-    ctx.assumptions.append("the 1e-5*r^2 accuracy clause is judged for max(r1, r2) >= 1e-150 only: below, Point.norm squares "
-                           "subnormal numbers and the allowed error approaches the spacing of subnormal doubles; totality, "
+    ctx.assumptions.append("radii positive and finite, <= 1e150 (the disc area must be a double; min(r1, r2)**2 raises OverflowError "
+                           "when the smaller radius exceeds ~1.34e154); centre coordinates: any finite doubles (centre distances up "
+                           "to 8e307 are generated); NaN/inf inputs are outside the property")
+    ctx.assumptions.append("the 1e-5*r^2 accuracy clause is judged for max(r1, r2) >= 1e-150 only: below, the areas (~r^2 <= 1e-300) "
+                           "approach the subnormal range and the allowed error approaches the spacing of subnormal doubles; totality, "
                            "symmetry and bounds are judged at every scale")
 
 
